@@ -31,6 +31,8 @@ def norm_code(e):
     """Lambda code modulo annotations and literal spelling."""
     if isinstance(e, tuple) and e and e[0] == 'rec':
         return ('rec', norm_code(e[1]))
+    if isinstance(e, list) and len(e) == 2 and isinstance(e[0], dict) and e[0].get('prim') == 'LAMBDA_REC' and isinstance(e[1], list):
+        return ('rec', norm_code(e[1]))   # pytezos spells a recursive lambda value as { LAMBDA_REC a b code ; code }
     if isinstance(e, list):
         out = []
         for x in e:
@@ -84,14 +86,18 @@ def has(t, prim):
     return T.contains(t, prim)
 
 
-def slot_diff(ms, ps):
-    """ms, ps: (type, value) from model / pytezos. -> None | (class, detail)"""
+def slot_diff(ms, ps, mode='both'):
+    """ms, ps: (type, value) from model / pytezos. -> None | (class, detail)
+    mode 'values': only values are judged (C01); 'types': only declared types (C02); 'both'."""
     mt, mv = ms
     pt, pv = ps
     if pt == 'extract-error':
         return 'extract', pv
     if mt != pt:
-        return 'type', 'declared type %s, expected %s' % (T.show(pt), T.show(mt))
+        if mode != 'values':
+            return 'type', 'declared type %s, expected %s' % (T.show(pt), T.show(mt))
+    if mode == 'types':
+        return None
     try:
         if norm_value(mv, mt) != norm_value(pv, mt):
             return 'value', 'value %r, expected %r' % (pv, mv)
@@ -100,10 +106,15 @@ def slot_diff(ms, ps):
     return None
 
 
-def first_divergence(model_events, hook_events):
+def first_divergence(model_events, hook_events, mode='both'):
     """-> None | dict(index, prim, class, detail)"""
     for i, (me, he) in enumerate(zip(model_events, hook_events)):
+        note = me[2] if len(me) > 2 else None
         if me[0] != he[0]:
+            if he[0] == 'LAMBDA_REC':
+                return {'index': i, 'prim': 'LAMBDA_REC', 'class': 'recursive-body-stack', 'note': 'lambda-pushed-over-argument',
+                        'detail': 'inside EXEC of a recursive lambda pytezos first pushes the lambda itself on top of the argument '
+                                  '(body then sees lambda : arg); the reference runs the body on arg : lambda'}
             return {'index': i, 'prim': me[0], 'class': 'control-flow', 'detail': 'model executed %s, pytezos %s' % (me[0], he[0])}
         ms, hs = me[1], he[1]
         if hs is None:
@@ -111,10 +122,10 @@ def first_divergence(model_events, hook_events):
         if len(ms) != len(hs):
             return {'index': i, 'prim': me[0], 'class': 'stack-depth', 'detail': 'stack depth %d, expected %d' % (len(hs), len(ms))}
         for j, (a, b) in enumerate(zip(ms, hs)):
-            d = slot_diff(a, b)
+            d = slot_diff(a, b, mode)
             if d:
                 return {'index': i, 'prim': me[0], 'class': d[0], 'detail': 'slot %d: %s' % (j, d[1]), 'slot': j,
-                        'mtype': a[0]}
+                        'mtype': a[0], 'note': note}
     return None
 
 
@@ -143,7 +154,7 @@ class Outcome:
         self.interp = None
 
 
-def run_both(code, env=None, snapshots=True, step_factor=50, keep_objects=False, interp=None):
+def run_both(code, env=None, snapshots=True, step_factor=50, keep_objects=False, interp=None, mode='both'):
     """Runs `code` (Micheline sequence, self-contained: it pushes its own inputs) on the model and on the real REPL."""
     out = Outcome()
     r = I.run(code, [], env)
@@ -164,18 +175,30 @@ def run_both(code, env=None, snapshots=True, step_factor=50, keep_objects=False,
             out.sig, out.detail = 'runaway', 'pytezos executed more than %d instructions, the model needed %d' % (mon.step_limit, len(r.events))
             return out
     out.mon, out.result = mon, res
-    judge(out, r, mon, res, it)
+    judge(out, r, mon, res, it, mode)
     return out
 
 
 RUNTIME_PRIMS = {'ADD', 'SUB', 'MUL', 'LSL', 'LSR'}
 
 
-def judge(out, r, mon, res, it):
-    div = first_divergence(r.events, mon.events)
+def judge(out, r, mon, res, it, mode='both'):
+    _judge(out, r, mon, res, it, mode)
+    if out.kind == 'violation' and mode == 'values':
+        # a values-mode divergence that follows an earlier declared-type divergence is a consequence of the latter
+        tdiv = first_divergence(r.events, mon.events, 'types')
+        vidx = getattr(out, 'div', {}).get('index', len(mon.events)) if hasattr(out, 'div') else len(mon.events)
+        if tdiv is not None and tdiv['class'] == 'type' and tdiv['index'] <= vidx:
+            out.root = tdiv
+            out.sig = 'consequence-of-type-divergence|%s|%s' % (tdiv['prim'], tdiv.get('note') or operand_shape(r.events, tdiv['index'], tdiv['prim']))
+            out.detail = 'root: after instruction #%d %s: %s; consequence: %s' % (tdiv['index'], tdiv['prim'], tdiv['detail'], out.detail)
+
+
+def _judge(out, r, mon, res, it, mode='both'):
+    div = first_divergence(r.events, mon.events, mode)
     if div is not None:
         out.kind = 'violation'
-        out.sig = '%s|%s|%s' % (div['prim'], div['class'], operand_shape(r.events, div['index'], div['prim']))
+        out.sig = '%s|%s|%s' % (div['prim'], div['class'], div.get('note') or operand_shape(r.events, div['index'], div['prim']))
         out.detail = 'after instruction #%d %s: %s' % (div['index'], div['prim'], div['detail'])
         out.div = div
         return
@@ -211,7 +234,7 @@ def judge(out, r, mon, res, it):
         if mon.failwith is None:
             out.kind, out.detail = 'inconclusive', 'FAILWITH value not captured: %s' % mon.failwith_error
             return
-        d = slot_diff(r.value, mon.failwith)
+        d = slot_diff(r.value, mon.failwith, mode)
         if d:
             out.kind, out.sig = 'violation', 'FAILWITH|value'
             out.detail = 'FAILWITH %s' % d[1]
